@@ -9,7 +9,11 @@ of `common_prefix`, `_enum_common_prefix`, `_create_enum` and the lexer's identi
 IntrospectablePass -> GIRWriter -> GIR text -> ElementTree  with the model's `parseDecls` +
 writer mapping on generated namespaces, plus direct comparisons of `_enum_common_prefix` and
 `_strip_symbol` on arbitrary strings; (3) an oracle written from the property statement
-(plain Python, no model code) judged on the REAL implementation's GIR for every declaration.
+(plain Python, no model code) judged on the REAL implementation's GIR for every declaration;
+(4) GType-registered enumerations and flags (a foo_..._get_type() function plus an <enum>/<flags> entry of
+the runtime dump, merged by the real GDumpParser): judged by the same oracle against the HEADER, compared
+with the model of the header when the dump is the header's 32-bit image, and the merge step itself
+(`mergeDump`, op c13.dump_merge) compared with the real result for every registered enumeration.
 """
 import ctypes
 import json
@@ -191,6 +195,140 @@ def gen_enum(rng, ns, idx):
             'style': style}
 
 
+# ------------------------------------------------------------------------------- GType-registered enums / flags
+# An enumeration that has a foo_..._get_type() function is described a second time by the runtime dump
+# (<enum>/<flags> with <member name= nick= value=>; value printed from GEnumValue.value with %d / from
+# GFlagsValue.value with %u).  GDumpParser._introspect_enum replaces the scanned node; the property still
+# speaks about the header: identifier, exact value (not the 32-bit dump number) and name.
+REG_WORDS = ['NONE', 'CLOSE', 'KEEP', 'OPEN', 'ASYNC', 'NO', 'BUFFER', 'READ', 'WRITE', 'ONLY', 'ALL', 'X1', 'A', 'B',
+             'LAST', 'FIRST', 'MODE', 'FROM', 'END']
+
+
+def as_int32(v):
+    v &= 0xffffffff
+    return v - (1 << 32) if v & (1 << 31) else v
+
+
+def camel_to_upper(s):
+    out = ''
+    for i, ch in enumerate(s):
+        if ch.isupper() and i and not s[i - 1].isupper():
+            out += '_'
+        out += ch.upper()
+    return out
+
+
+def registered_dump(d, repr_):
+    """the dump entry glib-mkenums-style registration gives for header enum `d`: nick = identifier minus the
+    words shared by all members, lower-cased, '_' -> '-'"""
+    idents = [m['name'] for m in d['members']]
+    shared = o_shared_words(idents) if len(idents) >= 2 else []
+    pre = '_'.join(shared) + '_' if shared else ''
+    ms = []
+    for m in d['members']:
+        v = m['value']
+        ms.append({'name': m['name'], 'nick': m['name'][len(pre):].lower().replace('_', '-'),
+                   'value': as_int32(v) if repr_ == 'signed' or v < 0 else v & 0xffffffff})
+    return {'tag': 'flags' if d.get('bitfield') else 'enum', 'repr': repr_, 'members': ms}
+
+
+def gen_registered_enum(rng, ns, idx):
+    nsname, idp, symp = ns
+    up = symp[0].upper().rstrip('_')
+    bitfield = rng.random() < 0.5
+    camel = rng.choice(['Stream', 'Seek', 'Reg', 'IoMode', 'Open']) + ('Flags' if bitfield else rng.choice(['Mode', 'Kind', 'Type']))
+    tname = idp[0] + camel + str(idx)
+    base = up + '_' + camel_to_upper(camel) + str(idx)
+    n = rng.choice([2, 3, 3, 4, 5, 8])
+    tails = []
+    while len(tails) < n:
+        k = rng.choice([1, 1, 2, 2, 3])
+        if len(tails) == 0:
+            k = 1                       # a single-word control
+        elif len(tails) == 1:
+            k = rng.choice([2, 3])      # a multi-word member (nick with '-')
+        t = '_'.join(rng.choice(REG_WORDS) for _ in range(k))
+        if t not in tails and not any(o_is_word_prefix(t, u) or o_is_word_prefix(u, t) for u in tails):
+            tails.append(t)
+    rng.shuffle(tails)
+    members = []
+    v = -1
+    for t in tails:
+        r = rng.random()
+        if bitfield:
+            if r < 0.45:
+                v = 1 << rng.randrange(0, 31)
+            elif r < 0.55:
+                v = 0
+            elif r < 0.8:
+                v = (1 << 31) | rng.choice([0, 1, 2, 1 << 30, rng.randrange(0, 1 << 31)])
+            else:
+                v = rng.choice([(1 << 32) - 1, (1 << 31) - 1, 3, 0x7fffffff, 0xf0000000])
+        else:
+            if r < 0.5:
+                v = v + 1 if -(1 << 31) <= v + 1 < (1 << 32) else 0
+            elif r < 0.6:
+                v = rng.randint(-(1 << 31), -1)
+            elif r < 0.85:
+                v = rng.randint(1 << 31, (1 << 32) - 1)
+            else:
+                v = rng.choice([1 << 31, (1 << 31) + 1, (1 << 32) - 1, (1 << 31) - 1, -1, -(1 << 31)])
+        members.append({'name': base + '_' + t, 'value': v, 'private': False})
+    if rng.random() < 0.7:
+        # make sure a multi-word member carries a value whose signed 32-bit form is negative
+        multi = [m for m in members if m['name'][len(base) + 1:].count('_')]
+        if multi:
+            rng.choice(multi)['value'] = (1 << 31) | rng.choice([0, 1, 5, rng.randrange(0, 1 << 31)])
+    d = {'d': 'enum', 'form': rng.choice(['typedef_tag', 'typedef_anon', 'typedef_anon']), 'name': tname,
+         'bitfield': bitfield, 'members': members, 'style': 'registered',
+         'get_type': '%s_%s%d_get_type' % (symp[0].rstrip('_'), camel_to_upper(camel).lower(), idx)}
+    d['dump'] = registered_dump(d, rng.choice(['signed', 'unsigned']) if bitfield else 'signed')
+    if rng.random() < 0.06:
+        # a hand-written nick that is not derived from the identifier: outside the statement
+        j = rng.randrange(len(members))
+        d['dump']['members'][j]['nick'] = 'custom-%d' % j
+    return d
+
+
+def gen_registered_case(rng, keys):
+    ns = rng.choice([NAMESPACES[0], NAMESPACES[0], NAMESPACES[3], NAMESPACES[4], NAMESPACES[5]])
+    decls = [gen_registered_enum(rng, ns, i) for i in range(rng.choice([1, 1, 2]))]
+    if rng.random() < 0.3:
+        e = gen_enum(rng, ns, 7)            # an unregistered neighbour
+        if e['name'] not in [d['name'] for d in decls]:
+            decls.insert(rng.randrange(len(decls) + 1), e)
+    if rng.random() < 0.3:
+        decls.append(gen_const(rng, ns, 0, keys, [], []))
+    return {'namespace': ns[0], 'id_prefixes': ns[1], 'sym_prefixes': ns[2], 'decls': decls}
+
+
+def dump_agrees(d):
+    """the dump lists exactly the header's members, in order, under the nicks derived from the identifiers,
+    with the 32-bit image of each value, and with the tag matching the flags marking"""
+    du = d.get('dump')
+    if du is None:
+        return True
+    for r in ('signed', 'unsigned'):
+        ref = registered_dump(d, r)
+        if ref['tag'] == du.get('tag') and ref['members'] == du.get('members'):
+            return True
+    return False
+
+
+def dump_xml_of(case):
+    out = []
+    for d in case['decls']:
+        if d['d'] == 'enum' and d.get('dump') is not None:
+            du = d['dump']
+            out.append('  <%s name="%s" get-type="%s">' % (du['tag'], d['name'], d['get_type']))
+            for mm in du['members']:
+                out.append('    <member name="%s" nick="%s" value="%d"/>' % (mm['name'], mm['nick'], mm['value']))
+            out.append('  </%s>' % du['tag'])
+    if not out:
+        return None
+    return '\n'.join(['<?xml version="1.0"?>', '<dump>'] + out + ['</dump>'])
+
+
 def gen_typedefs(rng, ns, keys):
     """typedef chains: depth-1 aliases of type_names keys, then aliases of aliases"""
     nsname, idp, symp = ns
@@ -315,6 +453,9 @@ def to_scanpipe(case):
                 decls.append({'d': 'typedef', 'name': d['name'], 'line': line,
                               'type': {'k': 'enum', 'n': tag, 'members': members,
                                        'bitfield': d.get('bitfield', False)}})
+            if d.get('get_type'):
+                decls.append({'d': 'function', 'name': d['get_type'], 'ret': {'k': 'typedef', 'n': 'GType'},
+                              'params': [], 'line': line})
         elif d['d'] == 'typedef':
             decls.append({'d': 'typedef', 'name': d['name'], 'type': type_json(d['target']), 'line': line})
         else:
@@ -327,8 +468,12 @@ def to_scanpipe(case):
             if d.get('type'):
                 c['type'] = type_json(d['type'])
             decls.append(c)
-    return {'namespace': case['namespace'], 'id_prefixes': case['id_prefixes'], 'sym_prefixes': case['sym_prefixes'],
-            'decls': decls}
+    cfg = {'namespace': case['namespace'], 'id_prefixes': case['id_prefixes'], 'sym_prefixes': case['sym_prefixes'],
+           'decls': decls}
+    dump = dump_xml_of(case)
+    if dump is not None:
+        cfg['dump'] = dump
+    return cfg
 
 
 class ScanTimeout(BaseException):
@@ -515,6 +660,10 @@ def oracle_enum(ctx, cnt, case, d, impl, key_base):
         for j, b in enumerate(idents):
             if i != j and o_is_word_prefix(a, b):
                 return 'outside:word-prefix'
+    if not dump_agrees(d):
+        # the statement speaks about the header; a runtime registration that names its values differently
+        # (hand-written nicks, other members) is not what it quantifies over
+        return 'outside:dump-differs-from-header'
     ename = o_id_strip(d['name'], case['id_prefixes'])
     others = [x for x in case['decls'] if x is not d and x['d'] != 'const' and x['name'] == d['name']]
     if others:
@@ -564,7 +713,7 @@ def oracle_enum(ctx, cnt, case, d, impl, key_base):
                            'enumeration %s: the GIR has %r, the property requires %r' % (d['name'], got, want),
                            {'kind': 'case', 'case': case, 'decl': d, 'got': got, 'required': want})
         return 'fail'
-    return 'ok:' + branch
+    return 'ok:' + branch + (':registered-' + d['dump']['tag'] if d.get('dump') else '')
 
 
 def o_resolve(t, case, upto, depth=0):
@@ -797,9 +946,14 @@ def run(ctx):
     n_cases = ctx.n(2200, 60000)
     while len(cases) < ncorpus + len(sweep) + n_cases:
         cases.append(gen_case(rng, keys))
+    # GType-registered enumerations / flags (runtime dump merged by the real GDumpParser), after the main stream
+    n_reg = ctx.n(300, 6000)
+    for _ in range(n_reg):
+        cases.append(gen_registered_case(rng, keys))
     ndecl = 0
     model_out = ctx.driver.batch([model_request(c) for c in cases])
     disagreeing = []
+    merge_reqs = []
     for c, mo in zip(cases, model_out):
         impl = run_impl(c)
         judge_case(ctx, cnt, c, impl)
@@ -812,12 +966,39 @@ def run(ctx):
                 cnt.hit('enum:form=' + d.get('form', 'typedef_anon'))
         cnt.hit('case:' + ('fatal:' + impl['fatal'] if 'fatal' in impl else 'gir'))
         cnt.case(c, nontrivial=bool(c['decls']))
+        for d in c['decls']:
+            if d['d'] == 'enum' and d.get('dump'):
+                multi = [mm for mm, hm in zip(d['dump']['members'], d['members'])
+                         if '-' in mm['nick'] and mm['value'] != hm['value']]
+                cnt.hit('registered:%s:%s:%s' % (d['dump']['tag'], d['dump'].get('repr'),
+                                                 'multiword-nick-with-wrapped-value' if multi else 'plain'))
+        mc = model_canon(mo)
+        for d in c['decls']:
+            # the dump-merge step on its own: model mergeDump(scanned members per the model, dump members) against
+            # the members the real GDumpParser left in the GIR (also for dumps that differ from the header)
+            if d['d'] == 'enum' and d.get('dump') and 'fatal' not in impl and 'fatal' not in mc and \
+                    d['name'] in mc['nodes'] and d['name'] in impl['nodes'] and \
+                    [x['name'] for x in c['decls']].count(d['name']) == 1:
+                merge_reqs.append(({'op': 'c13.dump_merge',
+                                    'prev': [{'name': a, 'value': int(b), 'cident': i}
+                                             for a, b, i in mc['nodes'][d['name']]['members']],
+                                    'dump': d['dump']['members']}, impl['nodes'][d['name']].get('members'), c))
+        if not all(dump_agrees(d) for d in c['decls'] if d['d'] == 'enum'):
+            continue            # the model describes the header; it applies when the dump is the header's image
         diff = compare(impl, model_canon(mo), c)
         if diff:
             disagreeing.append(c)
             if len(disagreeing) <= 3:
                 ctx.broken.append('correspondence c13.parse differs: %s  case=%s' % (diff, json.dumps(c)[:1500]))
     samples.append({'op': 'parse', 'case': cases[-1]})
+    nd = 0
+    for (req, got, c), mo in zip(merge_reqs, ctx.driver.batch([r[0] for r in merge_reqs])):
+        cnt.hit('dump_merge:' + ('same' if mo == got else 'differs'))
+        if mo != got:
+            nd += 1
+            if nd <= 3:
+                ctx.broken.append('correspondence c13.dump_merge differs: impl=%r model=%r case=%s'
+                                  % (got, mo, json.dumps(c)[:1500]))
     ctx.log('pipeline cases done: %d cases, %d declarations, %d disagreements' % (len(cases), ndecl, len(disagreeing)))
     # failing-input search in the neighbourhood of disagreements
     for c in disagreeing[:5]:
@@ -940,7 +1121,11 @@ def run(ctx):
                 'tagged enum symbol; bitfield flag) and 1-10 constants (int with every type_names key / aliases of '
                 'aliases / enum / unknown / pointer type or none, values around every power-of-two boundary; strings '
                 'with quotes and non-ASCII; booleans; doubles; with/without namespace prefix, hidden, non-.h file, '
-                'duplicates), each run through the real pipeline to GIR text and through the model; a sweep of every '
+                'duplicates), each run through the real pipeline to GIR text and through the model; GType-registered '
+                'enums and flags (get_type function + dump <enum>/<flags> through the real GDumpParser: single- and '
+                'multi-word members i.e. nicks with "-", values on both sides of 2**31 up to 2**32-1 and negative, dump '
+                'numbers signed (%d) and unsigned (%u), a few hand-written nicks counted outside; directed cases in '
+                'corpus/C13/registered_enums.json); a sweep of every '
                 'type_names key x {direct, 1, 2, 3 typedefs}; typedefs of undeclared names (also one that resolves to the typedef itself through a second identifier prefix); ident lists over small alphabets for '
                 '_enum_common_prefix; _strip_symbol on prefix look-alikes. non-trivial = non-empty declaration list / '
                 '>= 2 idents / ident longer than 2; distinct by content hash. Every case: model vs real code, and '
@@ -960,6 +1145,10 @@ def run(ctx):
         '--identifier-filter-cmd, accept_unprefixed off',
         "the C lexer/parser is not run: inputs start at the symbol stream (enum symbols reach _create_enum through "
         "typedefs in the real lexer; the tagged CSYMBOL_TYPE_ENUM form is exercised as well)",
+        'registered enumerations: the dump lists the header\'s members in declaration order under nicks derived from '
+        'the identifiers (identifier minus the shared words, lower-cased, "_" -> "-") with the 32-bit image of each '
+        'value; registrations with hand-written nicks or other members are outside the statement (counted, and still '
+        'compared with the model of the merge step)',
         "double constants: '%f' formatting is not modelled; the oracle checks type gdouble and |value - x| <= 5e-7",
         'declared types of integer constants are C type strings without GLib container names / GStrv; theorems '
         'about ranges assume no pointer stars in the declared type and in alias targets (correspondence covers them)',
